@@ -318,7 +318,9 @@ pub fn eval(c: &Case, ctx: &Ctx) -> CaseInfo {
 
 fn run_family(bytes: &[u8], ctx: &Ctx) -> CaseInfo {
     let mut s = Source::new(bytes);
-    let cfg = TermCfg::all_literals((0..NV as VarId).collect());
+    let mut cfg = TermCfg::all_literals((0..NV as VarId).collect());
+    // anonymous `_` variables among the named ones
+    cfg.wild = Some(std::rc::Rc::new(std::cell::Cell::new(crate::ast::WILD_BASE)));
     let c = decode(&mut s, &cfg);
     if std::env::var("PVH_SHOW").is_ok() {
         eprintln!("SHOW {}", show_case(&c));
@@ -332,6 +334,9 @@ fn run_lists(bytes: &[u8], ctx: &Ctx) -> CaseInfo {
     let mut cfg = TermCfg::small_ints((0..NV as VarId).collect());
     cfg.kinds = vec![Kind::Pair, Kind::Node];
     cfg.max_depth = 3;
+    if s.flag(128) {
+        cfg.wild = Some(std::rc::Rc::new(std::cell::Cell::new(crate::ast::WILD_BASE)));
+    }
     let c = decode(&mut s, &cfg);
     if std::env::var("PVH_SHOW").is_ok() {
         eprintln!("SHOW {}", show_case(&c));
